@@ -43,6 +43,7 @@ struct Elem {
     int b1 = -1, b2 = -1;               // attachment bodies of interaction elements (MobilizedBodyIndex as int)
     bool hasReference = true, reportsPE = false, damped = false, gradientForm = true;
     bool lastOpWasTopology = false;
+    bool hasShapeCoefficient = false;   // energy coefficient depends on where the contact is (see shapeCoefficient)
     bool documentedYankOut = false;     // reported dissipation may miss the energy lost when the force is clamped to zero
     Stage evalStage = Stage::Velocity, peStage = Stage::Position;
     double fdStep = 1e-3;
